@@ -630,4 +630,65 @@ theorem loopvar_redeclared_shadows :
   rw [closure_frames_correct _ _ (by decide), closure_frames_correct _ _ (by decide)]; decide
 example : Clos.runM Clos.Mech.yaegi 40 ClosEx.redeclLit = some ⟨[5, 5], .normal⟩ := by decide
 
+/-! ## case lists of a tagless switch (`case c, d, …:`; cfg.go post-order `case switchIfStmt` since 3b98047)
+
+  A clause condition of the fragment is one `BExpr`; a case list is the condition `caseList c ds = c || (d || …)`.
+  The two lemmas below say that this is not an approximation: the Go semantics of a list (left to right, chosen at
+  the first true condition, the rest not evaluated) is the evaluation of that condition, and the wiring cfg.go gives
+  a list (every condition: true → body, false → next condition, the last one → next clause) is literally what
+  `compile` emits for it — so `compile_correct`, `simulation` and `compile_correct_slots` cover tagless switches
+  with case lists as they stand. -/
+
+theorem case_list_semantics (s : St) (c : BExpr) (ds : List BExpr) :
+    (caseList c ds).eval s = evalCaseList s c ds := caseList_eval s ds c
+
+theorem case_list_wiring (c : BExpr) (ds : List BExpr) (base t f : Nat) :
+    compileCaseList true c ds base t f = compileCond (caseList c ds) base t f := compileCaseList_chained ds c base t f
+
+/-- the chained conditions reach the clause body or the next clause according to the list semantics, and a condition
+    that panics panics the machine -/
+theorem case_list_simulation (code : List Instr) (s : St) (σ : List Frame) (c : BExpr) (ds : List BExpr) (base t f : Nat)
+    (hemb : Embeds code (compileCaseList true c ds base t f) base) :
+    (∀ v, evalCaseList s c ds = some v → ∃ n, steps code n (.run base s σ) = some (.run (if v then t else f) s σ)) ∧
+    (evalCaseList s c ds = none → ∃ n, steps code n (.run base s σ) = some (.panicked s)) := by
+  rw [case_list_wiring] at hemb
+  rw [← case_list_semantics]
+  exact condition_simulation code s σ (caseList c ds) base t f hemb
+
+/-- tie: the extractor finds the chained wiring in the source -/
+theorem case_list_tie : Clos.factIs Generated.C01.mechFacts "switchIfStmt chains every condition of a case list" = true := by
+  rw [mech_tie]; decide
+
+/-- non-vacuity: `switch { case x == 0, x == 1: print 100; case x > 5 || x < 0, x == 3: print 200; default: print 300 }`
+    for x = 0 … 3 — a well-formed program of the fragment, so `compile_correct` applies to it -/
+def exCaseList : Stmt :=
+  .seq (.assign 0 (.lit 0))
+    (.loop (.cmp .lt (.var 0) (.lit 4))
+      (.switch
+        (.cons (caseList (.cmp .eq (.var 0) (.lit 0)) [.cmp .eq (.var 0) (.lit 1)]) (.print (.lit 100)) false
+        (.cons (caseList (.lor (.cmp .gt (.var 0) (.lit 5)) (.cmp .lt (.var 0) (.lit 0))) [.cmp .eq (.var 0) (.lit 3)])
+          (.print (.lit 200)) false
+        (.cons (.cmp .eq (.lit 0) (.lit 0)) (.print (.lit 300)) false .nil))))
+      (.assign 0 (.bin .add (.var 0) (.lit 1))))
+
+example : exCaseList.wf = true ∧ specOutcome [] 60 exCaseList st0 = some ⟨[100, 100, 300, 200], false⟩ := by
+  constructor
+  · rfl
+  · decide
+
+/-- where the machine is after `n` steps (program counter only) -/
+def pcAfter (code : List Instr) (n : Nat) (m : MState) : Option Nat :=
+  match steps code n m with
+  | some (.run pc _ _) => some pc
+  | _ => none
+
+/-- **witness (F53, repaired by 3b98047)** — `case x == 0, x == 1:` with x = 1: the clause is chosen in Go; the chained
+    wiring reaches the body (address 7); with only the first condition wired, as before the repair, the machine goes
+    to the next clause (address 9) -/
+theorem case_list_first_only_witness :
+    evalCaseList ⟨fun _ => 1, []⟩ (.cmp .eq (.var 0) (.lit 0)) [.cmp .eq (.var 0) (.lit 1)] = some true ∧
+    pcAfter (compileCaseList true (.cmp .eq (.var 0) (.lit 0)) [.cmp .eq (.var 0) (.lit 1)] 0 7 9) 2 (.run 0 ⟨fun _ => 1, []⟩ []) = some 7 ∧
+    pcAfter (compileCaseList false (.cmp .eq (.var 0) (.lit 0)) [.cmp .eq (.var 0) (.lit 1)] 0 7 9) 1 (.run 0 ⟨fun _ => 1, []⟩ []) = some 9 := by
+  decide
+
 end YaegiVerif.Props.C01
